@@ -12,6 +12,7 @@ pub mod clock;
 pub mod fs;
 pub mod log;
 pub mod net;
+pub mod observe;
 pub mod rand_shim;
 pub mod rng;
 pub mod rt;
